@@ -54,8 +54,33 @@ def mergelist_line(batch):
     return '(bitemp mergelist (L%s))' % ''.join(' (T %s %s)' % (enc(stamp(2 * k)), enc_ts(pairs)) for k, pairs in batch)
 
 
-def read_line(t2, what):
+def read_line(t2, what, spelling=None):
+    """spelling: how the read time is handed to bi_read - None = a datetime.datetime; otherwise one of SPELLINGS (the model sees
+    the same time T whatever its spelling)"""
+    if spelling is not None and t2 is not None:
+        return '(bitemp read %s I:%d %s)' % (enc(stamp(t2)), what, enc(spelling))
     return '(bitemp read %s I:%d)' % ('N' if t2 is None else enc(stamp(t2)), what)
+
+
+# the spellings of a date that Bi(ts, asof) accepts for the stamp (through dt()); an as-of read at T spelled in any of them must
+# be the as-of read at T (all stamps and read times of the generators are midnights, so every spelling is exact)
+SPELLINGS = ['str', 'str-compact', 'int', 'date', 'timestamp', 'datetime64']
+
+
+def spell(t, spelling):
+    if spelling == 'str':
+        return t.strftime('%Y-%m-%d')
+    if spelling == 'str-compact':
+        return t.strftime('%Y%m%d')
+    if spelling == 'int':
+        return int(t.strftime('%Y%m%d'))
+    if spelling == 'date':
+        return t.date()
+    if spelling == 'timestamp':
+        return pd.Timestamp(t)
+    if spelling == 'datetime64':
+        return np.datetime64(t)
+    raise ValueError(spelling)
 
 
 def spec_line(t2):
@@ -133,6 +158,8 @@ def history_case(rng, ndates, ordered, idem):
                 lines.append(read_line(t, 0))
         if rng.random() < 0.3:
             lines.append(read_line(rng.choice(T), rng.choice([1, 2, -2, -3, 7, -9])))
+        if rng.random() < 0.5:
+            lines.append(read_line(rng.choice(T), rng.choice([-1, -1, 0]), rng.choice(SPELLINGS)))
     tag = 'h%d-%s' % (ndates, kind)
     if idem:
         # re-merge a version that is in the store: the one merged last (always claimed by the property)
@@ -183,6 +210,7 @@ def generate(rng, tier):
             ('revert-same-stamp', [(0, full(1)), (1, full(2)), (1, full(1))]),
             ('late-dates', [(0, [(0, 1)]), (1, [(i, 2) for i in range(1, nd)])]),
             ('empty-first', [(0, []), (0, full(1)), (1, [])]),
+            ('two-empty-first', [(0, []), (1, []), (1, full(1))]),      # the second bi_merge raises ValueError (historyE_raises)
         ]
         for name, hist in specials:
             lines = []
@@ -192,6 +220,14 @@ def generate(rng, tier):
                 for t in T:
                     lines += [read_line(t, -1), spec_line(t), read_line(t, 0)]
             yield dict(tag='special-%s-%d' % (name, nd), lines=lines, ordered=True)
+        # the read time in every spelling, before / on / between / after two stamps
+        hist = [(0, full(1)), (1, full(2)), (2, [(0, 3)])]
+        lines = [merge_line(k, pairs) for k, pairs in hist]
+        for t in read_times(hist):
+            if t is not None:
+                for sp in SPELLINGS:
+                    lines += [read_line(t, -1, sp), read_line(t, 0, sp)]
+        yield dict(tag='special-asof-spellings-%d' % nd, lines=lines, ordered=True)
 
 
 # ---------------------------------------------------------------- implementation runner
@@ -272,6 +308,8 @@ def run_line(state, sx):
     if op in ('read', 'spec'):
         asof = None if args[0] == 'N' else proto.dec(args[0])
         what = proto.dec(args[1]) if op == 'read' else -1
+        if len(args) > 2:
+            asof = spell(asof, proto.dec(args[2]))
         if state['store'] is None:
             return 'ok N'
         return 'ok ' + enc_series(bi_read(state['store'], asof, what))
@@ -292,6 +330,10 @@ def compare(case, i, line, ir, mr):
         return ('divergence', 'history not in stamp order (outside the statement): implementation %s, model %s' % (ir, mr))
     if op == 'spec':
         return 'as-of read differs from the fold of the publication log: implementation %s, specification %s' % (ir, mr)
+    if op == 'read' and len(sx) > 4 and sx[3] in ('I:-1', 'I:0'):
+        t = proto.dec(sx[2])
+        return 'bi_read(asof=%r, what=%s) is not the read as of %s: implementation %s, model %s' % (
+            spell(t, proto.dec(sx[4])), sx[3][2:], t, ir, mr)
     if op == 'read' and sx[3] in ('I:-1', 'I:0'):
         return 'bi_read(what=%s): implementation %s, model (proved equal to the log fold) %s' % (sx[3][2:], ir, mr)
     return ('divergence', '%s: implementation %s, model %s' % (op, ir, mr))
@@ -334,6 +376,9 @@ def py_spec(hist, t2, first=False):
                 per.setdefault(i, []).append((k, v))
     out = {}
     for i, pubs in per.items():
+        if first == 'literal':
+            out[i] = pubs[0][1]                   # the statement as written: the first value published for the date (NaN if that was NaN)
+            continue
         if first:
             k0 = pubs[0][0]
             pubs = [p for p in pubs if p[0] == k0]
@@ -341,9 +386,43 @@ def py_spec(hist, t2, first=False):
     return out
 
 
-def _read(store, t2, what):
+def _hist_of(lines):
+    """the publication history spelled by the merge lines of a case: [(stamp number k, [(date index, value | None)])]"""
+    hist = []
+    for l in lines:
+        sx = proto.parse(l)
+        if sx[1] == 'merge':
+            k = (proto.dec(sx[2]) - S0) // DAY // 2
+            hist.append((k, [((t - D0) // DAY, v) for t, v in _dec_ts(sx[3])]))
+    return hist
+
+
+def _k_first(f):
+    """what=0 after two or more publications of a date that share the date's FIRST stamp: the store keeps one row per (date, stamp)
+    - the value merged last (_drop_repeats, drop_duplicates(keep='last')) - so the first published value is gone.  Recognised: a
+    'law-read-first-literal' finding in which every date read differently from the first published value (a) has at least two
+    publications with its first stamp and (b) is read as the fold of exactly those publications."""
+    if f.case.get('tag') != 'law-read-first-literal':
+        return False
+    hist = _hist_of(f.case['lines'])
+    sx = proto.parse(f.case['lines'][-1])
+    t2 = None if sx[2] == 'N' else (proto.dec(sx[2]) - S0) // DAY
+    lit, fold = py_spec(hist, t2, 'literal'), py_spec(hist, t2, True)
+    got = {int(i): v for i, v in f.case['got']}
+    if set(got) != set(lit):
+        return False
+    odd = [i for i in got if got[i] != lit[i]]
+
+    def shared_first(i):
+        ks = [k for k, pairs in hist if (t2 is None or 2 * k <= t2) and any(j == i for j, _ in pairs)]
+        return len(ks) > 1 and ks[1] == ks[0]
+    return bool(odd) and all(got[i] == fold[i] and shared_first(i) for i in odd)
+
+
+def _read(store, t2, what, spelling=None):
     from pyg_base._bitemporal import bi_read
-    r = bi_read(store, None if t2 is None else stamp(t2), what)
+    asof = None if t2 is None else stamp(t2)
+    r = bi_read(store, asof if spelling is None or asof is None else spell(asof, spelling), what)
     return {int((pd.Timestamp(t).to_pydatetime() - D0) // DAY): (None if v != v else (int(v) if float(v) == int(v) else float(v)))
             for t, v in zip(r.index, r.values)}, len(r)
 
@@ -361,6 +440,7 @@ def laws(rng, tier, ctx):
             store = None
             snaps = []
             bad = None
+            first_bad = None
             for j, (k, pairs) in enumerate(hist):
                 lines.append(merge_line(k, pairs))
                 store = bi_merge(store, Bi(_series([(date(i), v) for i, v in pairs]), stamp(2 * k)))
@@ -373,6 +453,28 @@ def laws(rng, tier, ctx):
                         if (got != want or n != len(want)) and bad is None:
                             bad = ('law-read-spec' if what == -1 else 'law-read-first', lines + [read_line(t, what)],
                                    'bi_read(asof=%s, what=%d) = %s but the publication log gives %s' % (t, what, got, want))
+                        if first:
+                            # the clause as written: the FIRST value published per date (known finding C17-K1 when several
+                            # publications share the date's first stamp)
+                            count += 1
+                            lit = py_spec(hist[:j + 1], t, 'literal')
+                            if got != lit and first_bad is None:
+                                first_bad = Finding('violation', dict(tag='law-read-first-literal', lines=lines + [read_line(t, 0)], atomic=True,
+                                                                     ordered=True, got=sorted(got.items())),
+                                                    'bi_read(asof=%s, what=0) = %s but the first values published are %s' % (t, got, lit))
+            # the read time in another spelling is the same read time
+            for t in T:
+                if t is not None:
+                    sp = rng.choice(SPELLINGS)
+                    count += 1
+                    a = _read(store, t, -1)[0]
+                    try:
+                        b = _read(store, t, -1, sp)[0]
+                    except Exception as e:
+                        b = 'raised %s' % type(e).__name__
+                    if a != b and bad is None:
+                        bad = ('law-asof-spelling', lines + [read_line(t, -1, sp)],
+                               'bi_read(asof=%r) = %s but the read as of that time is %s' % (spell(stamp(t), sp), b, a))
             # no look-ahead, directly: what was readable as of T before later versions arrived is still what is read
             for j in range(len(hist) - 1):
                 later = min(k for k, _ in hist[j + 1:])
@@ -400,7 +502,9 @@ def laws(rng, tier, ctx):
                                    're-merging version %d changed bi_read(asof=%s, what=%d): %s -> %s' % (j, t, what, a, b))
             if bad is not None:
                 yield Finding('violation', dict(tag=bad[0], lines=bad[1], atomic=True, ordered=True), bad[2])
+            if first_bad is not None:
+                yield first_bad
     yield count
 
 
-MATCHERS = {}
+MATCHERS = {'first_stamp_shared': _k_first}
